@@ -33,7 +33,11 @@ def archive_for(obj, proto, cur):
     return ioarch.make_zip(schema, members)
 
 
-def output_arg(kind, sb):
+def input_name(cfg):
+    return cfg.get("input_name", "in.skops")
+
+
+def output_arg(kind, sb, inp="in.skops"):
     """(CLI value or None, real destination path or None)"""
     w = sb.root / "w"
     return {
@@ -42,29 +46,36 @@ def output_arg(kind, sb):
         "nested": ("sub/out.skops", w / "sub" / "out.skops"),
         "missingdir": ("nodir/out.skops", w / "nodir" / "out.skops"),
         "absolute": (str(sb.root / "abs" / "out.skops"), sb.root / "abs" / "out.skops"),
-        "same-as-input": ("in.skops", w / "in.skops"),
+        "same-as-input": (inp, w / inp),
         "dotdot": ("sub/../out2.skops", w / "out2.skops"),
     }[kind]
 
 
 def setup(sb, data, cfg):
     w = sb.root / "w"
-    (w / "in.skops").write_bytes(data)
+    inp = input_name(cfg)
+    (w / inp).write_bytes(data)
     (w / "bystander.txt").write_bytes(BYSTANDER)
     (w / "sub" / "bystander.bin").write_bytes(BYSTANDER)
-    arg, dest = output_arg(cfg["output"], sb)
+    arg, dest = output_arg(cfg["output"], sb, inp)
     if cfg["inplace"] and arg is None:
-        dest = w / "in.skops"
-    if cfg["dest_exists"] and dest is not None and dest != w / "in.skops" and dest.parent.is_dir():
+        dest = w / inp
+    if cfg["dest_exists"] and dest is not None and dest != w / inp and dest.parent.is_dir():
         dest.write_bytes(OLD)
+    # files whose names look like somebody's temporary files next to the destination are bystanders too
+    if dest is not None and dest.parent.is_dir():
+        for suffix in (".tmp", ".bak", "~"):
+            p = dest.parent / (dest.name + suffix)
+            if not p.exists():
+                p.write_bytes(BYSTANDER)
     return arg, dest
 
 
-def cli_call(arg, inplace, verbose=0):
+def cli_call(arg, inplace, verbose=0, inp="in.skops"):
     def call():
         from skops.cli.entrypoint import main_cli
 
-        argv = ["update", "in.skops"]
+        argv = ["update", inp]
         if arg is not None:
             argv += ["-o", arg]
         if inplace:
@@ -107,8 +118,8 @@ def model_request(sb, cfg, arg, fresh, before, prog="update", crash=False):
 
     files = []
     for p, c in before["files"].items():
-        files.append([list(p), [1] if c == OLD else [3] if p[-1] == "in.skops" else [4]])
-    return dict(op="fs.run", prog=prog, cwd=["w"], input=dict(abs=False, parts=["in.skops"]), output=path_json(arg),
+        files.append([list(p), [1] if c == OLD else [3] if p[-1] == input_name(cfg) else [4]])
+    return dict(op="fs.run", prog=prog, cwd=["w"], input=dict(abs=False, parts=[input_name(cfg)]), output=path_json(arg),
                 inplace=cfg["inplace"], proto=cfg["proto"], cur=cfg["cur"], loadable=cfg.get("loadable", True), dumpable=True,
                 chunks=[[2]], fresh=fresh or "tmpdir", sysTmp=sb.rel(str(sb.systmp)), sysTmpSameFs=sb.other is None,
                 dirs=[list(d) for d in before["dirs"]], files=files, crashStates=crash)
@@ -118,7 +129,7 @@ def evaluate(sb, cfg, before, after, res, code, dest, reference, in_bytes):
     """the sentences of C16 for a complete run -> list of failure messages"""
     fails = []
     cur = cfg["cur"]
-    w_in = tuple(sb.rel(str(sb.root / "w" / "in.skops")))
+    w_in = tuple(sb.rel(str(sb.root / "w" / input_name(cfg))))
     dkey = tuple(sb.rel(str(dest))) if dest is not None else None
     both = cfg["inplace"] and cfg["output"] != "none"
     writes = cfg["proto"] < cur and dest is not None and not both
@@ -173,7 +184,7 @@ def run_case(ctx, obj, cfg, crash_points=True):
     try:
         arg, dest = setup(sb, data, cfg)
         before = sb.snapshot()
-        code, res = fscheck.traced_call(sb, cli_call(arg, cfg["inplace"]), sb.root / "w", sb.systmp, capture_logs=True)
+        code, res = fscheck.traced_call(sb, cli_call(arg, cfg["inplace"], inp=input_name(cfg)), sb.root / "w", sb.systmp, capture_logs=True)
         after = sb.snapshot()
         out["evaluations"] += 1
         rep = dict(kind="update", object=cfg["object"], config={k: v for k, v in cfg.items() if k != "object"}, argv_output=arg)
@@ -203,13 +214,13 @@ def run_case(ctx, obj, cfg, crash_points=True):
         out["ordinals"] = n_points
         if crash_points and n_points and dest is not None:
             dkey = tuple(sb.rel(str(dest)))
-            w_in = tuple(sb.rel(str(sb.root / "w" / "in.skops")))
+            w_in = tuple(sb.rel(str(sb.root / "w" / input_name(cfg))))
             for n in range(1, n_points + 1):
                 sb2 = fscheck.Sandbox(other_fs=cfg["other_fs"])
                 try:
                     arg2, dest2 = setup(sb2, data, cfg)
                     b2 = sb2.snapshot()
-                    code2, _ = fscheck.traced_call(sb2, cli_call(arg2, cfg["inplace"]), sb2.root / "w", sb2.systmp, crash_at=n, capture_logs=True)
+                    code2, _ = fscheck.traced_call(sb2, cli_call(arg2, cfg["inplace"], inp=input_name(cfg)), sb2.root / "w", sb2.systmp, crash_at=n, capture_logs=True)
                     a2 = sb2.snapshot()
                     out["crash_evals"] += 1
                     if code2 != fscheck.CRASH_EXIT:
@@ -274,6 +285,9 @@ def run(ctx):
     for output in ("bare", "nested", "absolute"):
         plan.append((objects[1], dict(proto=0, output=output, inplace=False, dest_exists=True, other_fs=True), True))
     plan.append((objects[2], dict(proto=1, output="none", inplace=True, dest_exists=False, other_fs=True), True))
+    # inputs whose own name looks like a temporary name of the destination
+    for nm, output in (("out.skops.tmp", "bare"), ("out.skops.bak", "bare"), ("tmpdir", "bare"), ("out.skops~", "bare")):
+        plan.append((objects[0], dict(proto=0, output=output, inplace=False, dest_exists=True, other_fs=False, input_name=nm), True))
     for (name, obj), c, sweep in plan:
         cfg = dict(c, cur=cur, object=name)
         try:
